@@ -15,7 +15,9 @@
 package c15
 
 import (
+	"context"
 	"fmt"
+	"github.com/google/certificate-transparency-go/trillian/ctfe/storage"
 	"io"
 	"os"
 	"path/filepath"
@@ -251,6 +253,27 @@ func (c *checker) evalSingle(b *baseline, devF []int, devV []int) {
 	if vc != nil && v1.expect != no && t.backend != 1 {
 		c.instanceCheck(cs, t, vc)
 	}
+	// external storage: what validation accepted as usable, the storage constructor must take too. Only the
+	// PostgreSQL schemes are tried (its driver opens lazily; the MySQL constructor dials at once).
+	if vc != nil && v1.expect == yes && t.backend == 1 && t.connUsable == yes {
+		conn := vc.Config.CtfeStorageConnectionString
+		if strings.HasPrefix(conn, "postgres://") || strings.HasPrefix(conn, "postgresql://") {
+			c.r.Eval(1)
+			var st storage.IssuanceChainStorage
+			var err error
+			pan, msg, stack := enum.Catch(func() {
+				st, err = storage.NewIssuanceChainStorage(context.Background(), vc.Config.ExtraDataIssuanceChainStorageBackend, conn)
+			})
+			switch {
+			case pan:
+				c.violation("storage constructor gives up on a connection string that validation accepted", "NewIssuanceChainStorage: "+msg+"\n"+stack, cs, "NewIssuanceChainStorage", "go", "panic/exit: "+msg, "a storage")
+			case err != nil || st == nil:
+				c.violation("storage constructor refuses a connection string that validation accepted", fmt.Sprintf("NewIssuanceChainStorage(%q) = %v, %v", conn, st, err), cs, "NewIssuanceChainStorage", "go", fmt.Sprint(err), "a storage")
+			default:
+				c.r.Add("external_storage_constructed", 1)
+			}
+		}
+	}
 }
 
 // combos calls f with every k-subset of [0,n) in lexicographic order.
@@ -325,6 +348,7 @@ func TestCheck(t *testing.T) {
 	r := rep.New("C15", "exploration")
 	klog.LogToStderr(false)
 	klog.SetOutput(io.Discard)
+	klog.OsExit = func(code int) { panic(fmt.Sprintf("klog.Exit(%d)", code)) } // the storage constructors call klog.Exitf on failure
 	keys.RegisterHandler(&keyspb.PrivateKey{}, der.FromProto)
 	prepare()
 	buildFields()
@@ -360,7 +384,7 @@ func TestCheck(t *testing.T) {
 		"the file loaders refuse empty sets (documented): compared as loader behaviour, not as validation",
 		"a LogMultiConfig whose backends or log_configs message is absent altogether and that breaks no rule otherwise: only 'no panic' is demanded (accepting it as empty or refusing it as incomplete both conform)",
 		"only parser-producible messages: no nil elements inside repeated fields",
-		"external-storage configurations stop at validation (SetUpInstance would dial the database)",
+		"external-storage configurations stop at validation plus, for PostgreSQL connection strings, the (lazy) storage constructor; SetUpInstance itself would dial the database",
 		"mirror instances get a contract-abiding MirrorSTHStorage (largest known source STH with tree_size <= maxTreeSize, else an error)",
 	)
 	c.partA(maxDev)
